@@ -47,12 +47,14 @@ def project(ev):
     return out
 
 
-def run_plan(plan, auto_reconnect, nsend, concurrent=False, connect_plan=(), seed=0):
+def run_plan(plan, auto_reconnect, nsend, concurrent=False, connect_plan=(), seed=0, other=False):
     from xknx.exceptions import CommunicationError
 
     with virtual_world(seed) as loop:
         sim = GatewaySim(loop, "udp", auto_reconnect=auto_reconnect, auto_reconnect_wait=1, tun_plan=plan,
                          connect_plan=connect_plan)
+        # other: a second tunnel of the same process (its own XKNX, its own gateway) connects and sends while this one works
+        sim2 = GatewaySim(loop, "udp", auto_reconnect=True, auto_reconnect_wait=1, first_chan=40) if other else None
 
         async def one(i):
             try:
@@ -63,8 +65,18 @@ def run_plan(plan, auto_reconnect, nsend, concurrent=False, connect_plan=(), see
             sim.log("send_ret", id=i & 0xFF, out=o)
             return o
 
+        async def others():
+            await sim2.tun.connect()
+            for i in range(5):
+                try:
+                    await sim2.tun.send_cemi(cemi(100 + i))
+                except CommunicationError:
+                    pass
+                await asyncio.sleep(0.17)
+
         async def main():
             await sim.tun.connect()
+            bg = asyncio.ensure_future(others()) if sim2 is not None else None
             if isinstance(concurrent, tuple):          # ("stagger", step): sender i starts at i * step, whatever the others are doing
                 async def later(i):
                     await asyncio.sleep(i * concurrent[1])
@@ -82,6 +94,9 @@ def run_plan(plan, auto_reconnect, nsend, concurrent=False, connect_plan=(), see
             if connect_plan:
                 await one(nsend)
             sim.quiesce()
+            if bg is not None:
+                await bg
+                sim2.quiesce()
 
         loop.run_until_complete(main())
         return project(sim.ev)
@@ -113,7 +128,7 @@ def run(ck):
     plans.append(([], True, 300, False))  # wrap-around of the counter
     plans.append((["lost", "lost"] + ["ok"] * 280, True, 270, False))
     plans = [p if len(p) == 5 else (*p, ()) for p in plans]
-    traces = [run_plan(*p, seed=ck.seed) for p in plans]
+    traces = [run_plan(*p, seed=ck.seed, other=(i % 5 == 2)) for i, p in enumerate(plans)]
     res = tlc.batch(ck, "io/TunSend_Trace", traces, min_per_shard=60)
     for idx, info in sorted(res.bad.items()):
         plan, ar, ns, conc, cp = plans[idx]
@@ -123,7 +138,7 @@ def run(ck):
         evk = {k: v for k, v in (ev or {}).items() if k != "t"}
         ck.violation({"plan": plan[:8], "auto_reconnect": ar, "concurrent": conc, "connect_plan": list(cp), "event": evk},
                      f"tunnel send trace rejected at event {l}: {ev} (plan={plan[:8]} auto_reconnect={ar} concurrent={conc})",
-                     {"plan": plan, "auto_reconnect": ar, "nsend": ns, "concurrent": conc, "connect_plan": list(cp), "trace": t[:200], "rejected_at": l})
+                     {"plan": plan, "auto_reconnect": ar, "nsend": ns, "concurrent": conc, "connect_plan": list(cp), "other": idx % 5 == 2, "trace": t[:200], "rejected_at": l})
     muts = []
     for t in [t for i, t in enumerate(traces[:400]) if i not in res.bad]:
         ks = [k for k, e in enumerate(t) if e["ev"] == "rx_ack" and e["st"] == 0]
@@ -149,7 +164,7 @@ def replay(ck, path):
     import json
 
     d = json.loads(open(path).read())["replay"]
-    t = run_plan(d["plan"], d["auto_reconnect"], d["nsend"], d["concurrent"], d.get("connect_plan", ()), ck.seed)
+    t = run_plan(d["plan"], d["auto_reconnect"], d["nsend"], tuple(d["concurrent"]) if isinstance(d["concurrent"], list) else d["concurrent"], d.get("connect_plan", ()), ck.seed, bool(d.get("other")))
     res = tlc.batch(ck, "io/TunSend_Trace", [t])
     l = res.bad.get(0)
     print("trace:", t[:60], "\nrejected at:", l, t[l - 1] if l else None)
